@@ -90,6 +90,7 @@ def main(argv):
 
 
 if __name__ == "__main__":
+    sys.setrecursionlimit(20000)
     sys.stdout.flush()
     rc = main(sys.argv[1:])
     sys.stdout.flush()
